@@ -12,6 +12,27 @@ type genState struct {
 	maxDepth int
 	maxG     int
 	paths    []pnode
+	resume   bool // resume case: chains, interrupt points, rerun nodes
+}
+
+// genKind chooses what a node is (a nested graph is generated on the spot).
+func (s *genState) genKind(nd *Node, gi, depth int, wantSub bool) {
+	r := s.r
+	switch {
+	case wantSub && depth < s.maxDepth && len(s.c.Forest) < s.maxG:
+		nd.Kind = "sub"
+		if len(s.c.Forest) > gi+1 && r.Chance(1, 6) {
+			nd.Sub = r.Range(gi+1, len(s.c.Forest)-1) // share a graph built by a sibling
+		} else {
+			nd.Sub = s.genGraph(depth + 1)
+		}
+	case r.Chance(1, 10):
+		nd.Kind = "pass"
+	case r.Chance(1, 9):
+		nd.Kind, nd.Ty = "comp", tyNone
+	default:
+		nd.Kind, nd.Ty = "comp", s.pool[r.Intn(len(s.pool))]
+	}
 }
 
 func (s *genState) genGraph(depth int) int {
@@ -27,21 +48,7 @@ func (s *genState) genGraph(depth int) int {
 	for i := 0; i < n; i++ {
 		nd := Node{Key: keys[i] + 1, Runs: true}
 		wantSub := r.Chance(1, 4) || (depth == 0 && i == 0 && r.Chance(3, 4))
-		switch {
-		case wantSub && depth < s.maxDepth && len(s.c.Forest) < s.maxG:
-			nd.Kind = "sub"
-			if len(s.c.Forest) > gi+1 && r.Chance(1, 6) {
-				nd.Sub = r.Range(gi+1, len(s.c.Forest)-1) // share a graph built by a sibling
-			} else {
-				nd.Sub = s.genGraph(depth + 1)
-			}
-		case r.Chance(1, 10):
-			nd.Kind = "pass"
-		case r.Chance(1, 9):
-			nd.Kind, nd.Ty = "comp", tyNone
-		default:
-			nd.Kind, nd.Ty = "comp", s.pool[r.Intn(len(s.pool))]
-		}
+		s.genKind(&nd, gi, depth, wantSub)
 		nodes[i] = nd
 	}
 	g := Graph{Nodes: nodes, Dag: r.Chance(1, 3)}
@@ -56,8 +63,80 @@ func (s *genState) genGraph(depth int) int {
 			g.Nodes[i].Runs = j == keep || r.Chance(1, 2)
 		}
 	}
+	if s.resume {
+		s.genChains(&g, gi, depth, n)
+	}
 	s.c.Forest[gi] = g
 	return gi
+}
+
+// genChains (resume cases): some of the n head nodes get a tail  head -> relay -> node, so
+// that there is something left to run after an interrupt; then interrupt points and rerun
+// nodes are chosen. In pregel mode every chain has the same length (END fires on its first
+// input), in DAG mode any.
+func (s *genState) genChains(g *Graph, gi, depth, n int) {
+	r := s.r
+	all := !g.Dag && r.Chance(1, 2)
+	next := 11
+	for i := 0; i < n; i++ {
+		if g.Dag && !r.Chance(1, 2) || !g.Dag && !all {
+			continue
+		}
+		if len(g.Nodes) >= 7 && g.Dag {
+			break
+		}
+		head := g.Nodes[i]
+		relay := Node{Key: next, Kind: "relay", Runs: head.Runs, Pred: head.Key}
+		tail := Node{Key: next + 1, Runs: head.Runs, Pred: next}
+		next += 2
+		s.genKind(&tail, gi, depth, r.Chance(1, 5))
+		g.Nodes = append(g.Nodes, relay, tail)
+	}
+	for i := range g.Nodes {
+		nd := &g.Nodes[i]
+		if r.Chance(1, 7) {
+			g.IB = append(g.IB, nd.Key)
+		}
+		if r.Chance(1, 7) {
+			g.IA = append(g.IA, nd.Key)
+		}
+		if canRerun(*nd) && r.Chance(1, 8) {
+			nd.Rerun = true
+		}
+	}
+}
+
+// canRerun: a node that is run again from a checkpoint is handed the zero value of its input
+// type, which only the lambdas of this harness (they take the whole input map) accept.
+func canRerun(nd Node) bool {
+	return nd.Kind == "relay" || nd.Kind == "comp" && (nd.Ty == tyNone || nd.Ty == tyLambdaA || nd.Ty == tyLambdaB)
+}
+
+// interruptPoints counts the interrupt points over the tree unfolding and those inside
+// nested graphs.
+func (s *genState) interruptPoints() (total, nested int) {
+	var rec func(gi int, d int)
+	rec = func(gi int, d int) {
+		if d > len(s.c.Forest) {
+			return
+		}
+		g := s.c.Forest[gi]
+		k := len(g.IB) + len(g.IA)
+		for _, nd := range g.Nodes {
+			if nd.Rerun {
+				k++
+			}
+			if nd.Kind == "sub" {
+				rec(nd.Sub, d+1)
+			}
+		}
+		total += k
+		if d > 0 {
+			nested += k
+		}
+	}
+	rec(0, 0)
+	return
 }
 
 type pnode struct {
@@ -271,6 +350,7 @@ func (engine) Generate(r *lib.Rng, tier string, i int) any {
 	if tier == "thorough" {
 		s.maxDepth, s.maxG = 3, 8
 	}
+	s.resume = r.Chance(2, 5)
 	np := r.Range(2, 4)
 	perm := r.Perm(numTy - 1)
 	for k := 0; k < np; k++ {
@@ -278,9 +358,69 @@ func (engine) Generate(r *lib.Rng, tier string, i int) any {
 	}
 	s.genGraph(0)
 	s.c.Sched = r.U64() >> 1
+	if s.resume {
+		return s.genSession()
+	}
 	s.c.Seq = r.Chance(1, 6)
 	for ci := 0; ci < 2; ci++ {
 		s.c.Calls = append(s.c.Calls, s.genCall(ci))
 	}
 	return s.c
+}
+
+// genSession: the calls of a resume case. There is (almost always) an interrupt point inside a
+// nested graph; there are enough calls to get through every interrupt point plus a few that
+// may be rejected for a bad designation; every call carries the global probe handler.
+func (s *genState) genSession() *Case {
+	r := s.r
+	c := s.c
+	c.Resume = true
+	if _, nested := s.interruptPoints(); nested == 0 && len(c.Forest) > 1 && !r.Chance(1, 10) {
+		g := &c.Forest[r.Range(1, len(c.Forest)-1)]
+		nd := &g.Nodes[r.Intn(len(g.Nodes))]
+		switch x := r.Intn(3); {
+		case x == 0 && canRerun(*nd):
+			nd.Rerun = true
+		case x == 1:
+			g.IA = append(g.IA, nd.Key)
+		default:
+			g.IB = append(g.IB, nd.Key)
+		}
+	}
+	total, _ := s.interruptPoints()
+	nc := total + 2
+	if nc > 7 {
+		nc = 7
+	}
+	stream := r.Chance(1, 3)
+	hasRerun := false
+	for _, g := range c.Forest {
+		for _, nd := range g.Nodes {
+			hasRerun = hasRerun || nd.Rerun
+		}
+	}
+	for ci := 0; ci < nc; ci++ {
+		cl := s.genCall(ci)
+		if !r.Chance(1, 4) {
+			cl.Stream = stream // mostly one way of calling per session, sometimes mixed
+		}
+		if hasRerun {
+			// a node that is re-run through Stream is handed an empty stream, which an invokable
+			// lambda cannot concatenate
+			cl.Stream = false
+		}
+		// no WithLambdaOption(a, b) of two types: it fails inside the node, in the middle of the run
+		for j := range cl.Script {
+			its := cl.Script[j].Items
+			for k := range its {
+				its[k][0] = its[0][0]
+			}
+		}
+		cl.Script = append(cl.Script, BOp{Op: "handlers", Hs: []int{probeID(ci)}})
+		at := r.Intn(len(cl.Pass) + 1)
+		cl.Pass = append(cl.Pass[:at], append([]int{len(cl.Script) - 1}, cl.Pass[at:]...)...)
+		cl.CpPos = r.Intn(len(cl.Pass) + 2)
+		c.Calls = append(c.Calls, cl)
+	}
+	return c
 }
